@@ -7,6 +7,13 @@ Line-protocol driver of the C08 model (header `spacebounds …`; the header's `s
       -> `sat=<b> sat2=<b> | <enforced state> | <twice enforced state>`
   msamp <u|n|g> <dist> <nu> <u>*nu <ng> <g>*ng <space> <centre>          (model only: raw draws are inputs)
       -> `sat=<b> ui=<n> gi=<n> | <sampled state>`
+  subs <u|n|g> <plen> <k>*plen <dist> <space> <state> <near> <scripted substate>
+      -> `out=<full state> | call=<U|N|G> d=<distance given to the inner sampler> near=<substate given to it>`
+  cmps <u|n|g> <dist> <compound space> <near>
+      -> `calls=<U|N:<distance>|G:<sigma>>,…`  (what CompoundStateSampler asks of each direct component: `nearBranch`,
+         `sd * importance` of the model)
+  rsamp <u|n|g> <dist> <nu> <u>*nu <ng> <g>*ng <space> <centre>     (raw draws replicated by the harness's `rawu`)
+      -> `<found:j|threw:j|exhausted|direct> | <sampled state>`   (Torus / Klein uniform through their rejection loops)
   vs <uniform|gaussian|obstacle|bridge|maxclear|minclear> <s|n> <attempts> <improve> <clearance> <nd> <dim>
      <ns> <sample>*ns <na> (<valid:0|1> <clearance>)*na
       -> `ret=<b> st=<x,…> ns=<sampler calls> na=<isValid calls> calls=<U|N|G…> log=<x,…:v;…>` (oldest first)
@@ -20,6 +27,18 @@ def init (ts : List String) : Option St :=
   match ts with
   | "spacebounds" :: _ => some ()
   | _ => none
+
+/-- a wrapper around a compound-type space somewhere in the space (the harness refuses to build location tables for
+those: OMPL's computeLocationsHelper static_casts such a wrapper to CompoundStateSpace) -/
+def isCompoundKind : Space Float → Bool
+  | .cnil | .ccons .. | .torus .. | .mobius .. | .klein | .sphere _ => true
+  | .wrap s => isCompoundKind s
+  | _ => false
+
+def hasWrappedCompound : Space Float → Bool
+  | .wrap s => isCompoundKind s || hasWrappedCompound s
+  | .ccons _ h t => hasWrappedCompound h || hasWrappedCompound t
+  | _ => false
 
 def b01 (b : Bool) : String := if b then "1" else "0"
 
@@ -112,6 +131,82 @@ def step (st : St) (ts : List String) : St × String :=
         if p.ui > us.size || p.gi > gs.size then (st, "short")
         else (st, s!"sat={b01 (satisfiesBounds sp s)} ui={p.ui} gi={p.gi} | {showSt s}")
       | none => (st, "bad-op")
+    | none => (st, "bad-op")
+  | "subs" :: kind :: r =>
+    match (do
+      let (plen, r) ← pNat r
+      let rec pPath : Nat → List String → Option (List Nat × List String)
+        | 0, r => some ([], r)
+        | n + 1, r => do
+          let (k, r) ← pNat r
+          let (ks, r) ← pPath n r
+          pure (k :: ks, r)
+      let (path, r) ← pPath plen r
+      let (d, r) ← pFloat r
+      let (sp, r) ← pSpace r
+      if !validPath sp path || hasWrappedCompound sp then none else
+      -- a wrapper as the sampled subspace has no common substate names with its parent (OMPL: "Sampling will have
+      -- no effect"); not modelled, rejected on both sides
+      if (match subAt sp path with | .wrap _ => true | _ => false) then none else
+      let (s0, r) ← pState sp r
+      let (near, r) ← pState sp r
+      let (w, r) ← pState (subAt sp path) r
+      if r.isEmpty then pure (path, d, sp, s0, near, w) else none) with
+    | some (path, d, sp, s0, near, w) =>
+      let out := showSt (setAt s0 path w)
+      match kind with
+      | "u" => (st, s!"out={out} | call=U d=- near=-")
+      | "n" => (st, s!"out={out} | call=N d={floatBits (d * subWeight sp path)} near={showSt (getAt near path)}")
+      | "g" => (st, s!"out={out} | call=G d={floatBits (d * subWeight sp path)} near={showSt (getAt near path)}")
+      | _ => (st, "bad-op")
+    | none => (st, "bad-op")
+  | "cmps" :: kind :: r =>
+    match (do
+      let (d, r) ← pFloat r
+      let (sp, r) ← pSpace r
+      let (_, r) ← pState sp r
+      if r.isEmpty then pure (d, sp) else none) with
+    | some (d, sp) =>
+      let ws := weightSum sp (Num.ofNat 0)
+      let rec comps : Space Float → Option (List Float)
+        | .cnil => some []
+        | .ccons w _ t => (comps t).map (w :: ·)
+        | _ => none
+      match comps sp, kind with
+      | some wl, "u" => (st, "calls=" ++ ",".intercalate (wl.map (fun _ => "U")))
+      | some wl, "n" =>
+        (st, "calls=" ++ ",".intercalate (wl.map (fun w =>
+          match nearBranch ws w d with
+          | some d' => "N:" ++ floatBits d'
+          | none => "U")))
+      | some wl, "g" => (st, "calls=" ++ ",".intercalate (wl.map (fun w => "G:" ++ floatBits (d * importance ws w))))
+      | _, _ => (st, "bad-op")
+    | none => (st, "bad-op")
+  | "rsamp" :: kind :: r =>
+    match (do
+      let (d, r) ← pFloat r
+      let (us, r) ← pCounted r
+      let (gs, r) ← pCounted r
+      let (sp, r) ← pSpace r
+      let (c, r) ← pState sp r
+      if r.isEmpty then pure (d, us.toArray, gs.toArray, sp, c) else none) with
+    | some (d, us, gs, sp, c) =>
+      let R : Rng Float := ⟨getD us, getD gs⟩
+      let showRes : RejRes → String
+        | .found j => s!"found:{j}"
+        | .threw j => s!"threw:{j}"
+        | .exhausted => "exhausted"
+      match kind, sp with
+      | "u", .torus Rr rr =>
+        let res := torusUniformRej R Rr rr (us.size / 3) {}
+        (st, s!"{showRes res.1} | {match res.2 with | some x => showSt x.1 | none => "-"}")
+      | "u", .klein =>
+        let res := kleinUniformRej R (us.size / 3) {}
+        (st, s!"{showRes res.1} | {match res.2 with | some x => showSt x.1 | none => "-"}")
+      | "u", _ => (st, s!"direct | {showSt (sampleUniform R sp {}).1}")
+      | "n", _ => (st, s!"direct | {showSt (sampleNear R none sp c d {}).1}")
+      | "g", _ => (st, s!"direct | {showSt (sampleGauss R none sp c d {}).1}")
+      | _, _ => (st, "bad-op")
     | none => (st, "bad-op")
   | ["vs"] => (st, "bad-op")
   | "vs" :: name :: mode :: r =>
